@@ -111,7 +111,7 @@ def known_match(entry, op, inp, obs):
     return False
 
 
-BASES = ['1.0', '2', '1:0.5', '1.0-1', '1.0~rc1', '3.2.1+b1']
+BASES = ['1.0', '2', '1:0.5', '1.0-1', '1.0~rc1', '3.2.1+b1', '1.0RC1', '1.0a', '2.0Beta-1', '1.0Z']
 
 
 def around(rng, v):
@@ -123,8 +123,11 @@ def around(rng, v):
         return rng.choice((v + '-0' if '-' not in v else v, '0:' + v if ':' not in v else v, v.replace('0', '00', 1)))
     if r < 0.6:   # just below
         return v + '~' + rng.choice(('1', 'a', '~1'))
-    if r < 0.8:   # just above
+    if r < 0.7:   # just above
         return v + rng.choice(('a', '+1', '.0.1', '.1'))
+    if r < 0.8:   # the other letter case, a letter against a digit or punctuation at the same place (dpkg: upper < lower)
+        sw = ''.join(c.lower() if c.isupper() else c.upper() if c.islower() else c for c in v)
+        return rng.choice((sw, v + 'A', v + 'z', v + 'Z1', v + 'a1'))
     if r < 0.9:
         return rng.choice(BASES)
     return rng.choice(('1.0+', 'x', '1:', '', '1_0'))   # open / invalid / empty
